@@ -134,6 +134,15 @@ def curated():
                                          "relations": [["conflict", "clear", "dec", "U"], ["conflict", "clear", "inc", "U"]]}
     D["several_relations_one_transaction"] = {"items": [M("A", iw=0), T("T0", [call("A")]), T("T1"), T("T2"), T("T3")],
                                               "relations": [["conflict", "T3", "T2", "U"], ["conflict", "T3", "A", "L"], ["conflict", "T3", "T1", "R"]]}
+    # a nonexclusive method reached at different call depths (directly, and through an exclusive wrapper): no conflict
+    D["nonexclusive_ancestor_unequal_depth"] = {"items": [M("leaf", iw=0), M("N", [call("leaf")], iw=0, ow=0, nonexclusive=True), M("W", [call("N")], iw=0, ow=1),
+                                                          T("T0", [call("W")]), T("T1", [call("N")]), T("T2", [If([call("W", en=True)])])]}
+    D["nonexclusive_ancestor_unequal_depth_3"] = {"items": [M("leaf", iw=0), M("N", [call("leaf")], iw=0, ow=0, nonexclusive=True), M("W", [call("N")], iw=0, ow=0, nonexclusive=True),
+                                                            M("X", [call("W")], iw=0, ow=0), T("T0", [call("X")]), T("T1", [call("N")]), T("T2", [call("W")])]}
+    # a validated method below a method that the transaction reaches through two exclusive call paths
+    D["validator_below_repeated_method"] = {"items": [M("V", validate=True), M("mid", [call("V")], iw=0, ow=0), T("T0", [If([call("mid")], els=[call("mid")])]), T("T1", [call("V", en=True)])]}
+    D["validator_below_two_routes"] = {"items": [M("V", validate=True), M("mid", [call("V")], iw=0, ow=0), M("A", [call("mid")], iw=0, ow=0), M("B", [call("mid")], iw=1, ow=0),
+                                                 T("T0", [Sw(2, [("00", [call("A")]), ("01", [call("B")]), ("1-", [call("mid")])])])]}
     # a schedule_before chain (Forwarder-style: the reader's readiness is the writer's run) that leaves a conflict
     # component and re-enters it: head and tail of the chain share an exclusive method
     for variant in ("head_more_conflicts", "tail_defined_first"):
